@@ -25,7 +25,7 @@ def run(rep):
     explore.explore(rep, 'family-d2' if quick else 'family-d4', fam, 2 if quick else 4, bases, 'checks.oracles:oracle_c18',
                     budget_s=600 if quick else 1700)
 
-    rep.assumption('distinct_nontrivial = executions with pairwise different timed wire traces (every message sent / delivered / dropped with its virtual time), per scenario; distinct_outcomes = distinct per-filter process() input sequences per scenario')
+    rep.assumption('distinct_nontrivial = distinct emitted event sequences per scenario')
     rep.set('traces_validated_against_impl', rep.coverage.get('evaluations', 0))
-    rep.set('distinct_nontrivial', rep.coverage.get('distinct_timed_wire_traces', 0))
+    rep.set('distinct_nontrivial', rep.coverage.get('distinct_outcomes', 0))
     rep.set('exhaustive', not rep.capped)
